@@ -9,4 +9,5 @@ let entries : (string * (byte list -> byte list)) list = [
   "recursion_model", recursion_model_line;
   "formats_model", formats_model_line;
   "regex_model", regex_model_line;
+  "unquote_model", unquote_model_line;
 ]
